@@ -25,9 +25,16 @@ def _guarded(fn, item):
             from . import engine
 
             entered = set()
+            br = {}
             for it, _w in engine._CACHE.values():
                 entered.update("%s.%s" % me for me in it.functions_entered)
+                sent = it.__dict__.setdefault("_branches_sent", {})
+                for k, v in it.branches.items():
+                    if sent.get(k, 0) != v:
+                        br[k] = v
+                        sent[k] = v
             r["__entered__"] = sorted(entered)
+            r["__branches__"] = [(k[0], k[1], k[2], v) for k, v in br.items()]
         return r
     except Unsupported as e:
         return {"__unsupported__": "unmodelled construct: %s" % e}
@@ -35,6 +42,50 @@ def _guarded(fn, item):
         return {"__unsupported__": "step limit: %s" % e}
     except RecursionError as e:
         return {"__unsupported__": "recursion limit"}
+
+
+def branch_summary(ctx):
+    """Self-audit of the swept box: for the `if` tests of the repository functions that were abstractly
+    interpreted, how many were seen with both outcomes, with one outcome only, or never reached."""
+    import ast
+
+    pm = ctx.pm
+    seen = {}
+    for (f, ln, col), v in ctx.ev.branches.items():
+        if f:
+            seen[(f.split("/src/")[-1], ln, col)] = v
+    both = one = never = 0
+    one_sided, unreached = [], []
+    for name in sorted(ctx.ev.interpreted):
+        parts = name.split(".")
+        node = mod = None
+        for i in range(len(parts) - 1, 0, -1):
+            m = ".".join(parts[:i])
+            if m in pm.mods and not pm.is_pkg(m):
+                mod = m
+                try:
+                    node = pm.func(m, ".".join(parts[i:]), required=False)
+                except Exception:
+                    node = None
+                break
+        if node is None or "<" in name:
+            continue
+        rel = pm.path(mod).split("/src/")[-1]
+        for n in ast.walk(node):
+            if isinstance(n, (ast.If, ast.IfExp)):
+                t = n.test
+                v = seen.get((rel, t.lineno, t.col_offset), 0)
+                src = ast.unparse(t)
+                src = src if len(src) < 70 else src[:67] + "..."
+                if v == 3:
+                    both += 1
+                elif v:
+                    one += 1
+                    one_sided.append("%s:%d %s: `%s` only %s" % (rel, t.lineno, name.split(".", 1)[-1] if False else ".".join(parts[-2:]), src, "true" if v == 1 else "false"))
+                else:
+                    never += 1
+                    unreached.append("%s:%d %s: `%s`" % (rel, t.lineno, ".".join(parts[-2:]), src))
+    return dict(note="if-tests inside the interpreted repository functions; one-sided / unreached tests show where the swept box does not reach (a self-audit, not a verdict)", both_outcomes=both, one_outcome=one, not_reached=never, one_sided=sorted(set(one_sided))[:80], unreached=sorted(set(unreached))[:80])
 
 
 class Ctx(object):
@@ -87,6 +138,8 @@ class Ctx(object):
                 continue
             if isinstance(r, dict) and "__entered__" in r:
                 self.ev.interpreted.update(r.pop("__entered__"))
+                for f, ln, col, v in r.pop("__branches__", ()):
+                    self.ev.branches[(f, ln, col)] = self.ev.branches.get((f, ln, col), 0) | v
             out.append((it, r))
         return out
 
@@ -134,6 +187,10 @@ def main(argv):
             return 2
         mod.run(ctx)
         ctx.ev.check_floors()
+        try:
+            ctx.ev.extra["branch_coverage"] = branch_summary(ctx)
+        except Exception as e:  # a self-audit figure only: never a verdict
+            ctx.ev.extra["branch_coverage"] = {"error": "%s: %s" % (type(e).__name__, e)}
     except AnalysisError as e:
         ctx.error(str(e))
     except Unsupported as e:
